@@ -707,6 +707,36 @@ theorem lookup_isSome_mem_keys {l : List (Str × Int)} {n : Str} (h : (l.lookup 
       rw [this] at h
       exact List.mem_cons_of_mem _ (ih h)
 
+/-! ### the regenerated dispatch chains of `add` denote the documented reading by kinds -/
+
+theorem mkDictValC_eq (levels : List (Str × Int)) (v : DVal) : mkDictValC levels v = mkDictVal levels v := by
+  cases v <;> rfl
+
+theorem mkDictC_eq (levels : List (Str × Int)) : ∀ items, mkDictC levels items = mkDict levels items := by
+  intro items
+  induction items with
+  | nil => rfl
+  | cons kv rest ih =>
+    rcases kv with ⟨k, v⟩
+    simp only [mkDictC, mkDict, mkDictValC_eq, ih]
+
+theorem mkFilterC_eq (levels : List (Str × Int)) (a : FilterArg) : mkFilterC levels a = mkFilter levels a := by
+  cases a with
+  | none => rfl
+  | str s =>
+    cases s with
+    | nil => rfl
+    | cons c cs => rfl
+  | dict items =>
+    show (mkDictC levels items).map Filter.byLevel = (mkDict levels items).map Filter.byLevel
+    rw [mkDictC_eq]
+  | callable k => rfl
+  | builtinFilter => rfl
+  | bad => rfl
+
+theorem mkThresholdC_eq (levels : List (Str × Int)) (l : LevelArg) : mkThresholdC levels l = mkThreshold levels l := by
+  cases l <;> rfl
+
 theorem add_sim {c : Core} {s : SState} (h : Sim c s) (a : AddArgs) :
     (add c a).2 = (sAdd s a).2 ∧ Sim (add c a).1 (sAdd s a).1 := by
   rcases c with ⟨hs, cnt, ml, en, al, an, lv, lk, pc⟩
@@ -715,7 +745,7 @@ theorem add_sim {c : Core} {s : SState} (h : Sim c s) (a : AddArgs) :
   simp only at h1 h2 h3 h4 h5 h6 h7 h8 h9 h10 h11
   subst h1 h2 h3
   unfold add sAdd
-  simp only
+  simp only [mkFilterC_eq, mkThresholdC_eq]
   have hbump : Sim ⟨hs, cnt + 1, ml, en, al, an, lv, lk, pc⟩ ⟨lv, cnt + 1, hs, acts⟩ :=
     ⟨rfl, rfl, rfl, h4, h5, h6, h7, h8, h9, h10, h11⟩
   cases mkFilter lv a.filter with
@@ -801,6 +831,36 @@ theorem removeAll_sim (orc : Oracle) {c : Core} {s : SState} (h : Sim c s)
   rw [removeLoop_spec hs _ rfl hp h4]
   exact ⟨rfl, ⟨rfl, rfl, rfl, rfl, h5, h6, h7, h8, h9, h10, h11⟩⟩
 
+/-- the table obtained by executing `level` abstractly does not distinguish a colour from an icon, and denotes the
+create / update / read rules the spec states -/
+theorem levelTable_symmetric : ∀ k ∈ [0, 1, 2, 3], ∀ c i e : Bool,
+    Gen.levelTable.lookup (k, c, i, e) = Gen.levelTable.lookup (k, c || i, false, e) := by decide
+
+theorem levelDecisionC_eq (levels : List (Str × Int)) (name : Str) (no : NoArg) (other : Bool) :
+    levelDecisionC levels name no other = levelDecision levels name no other := by
+  unfold levelDecisionC levelDecision
+  cases hl : levels.lookup name with
+  | none =>
+    cases no with
+    | none => cases other <;> rfl
+    | bad => cases other <;> rfl
+    | int i =>
+      simp only [noKind]
+      by_cases hi : Gen.levelRejectsNo i = true
+      · cases other <;> simp [hi] <;> rfl
+      · have hi' : Gen.levelRejectsNo i = false := by simpa using hi
+        cases other <;> simp [hi'] <;> rfl
+  | some old =>
+    cases no with
+    | none => cases other <;> rfl
+    | bad => cases other <;> rfl
+    | int i =>
+      simp only [noKind]
+      by_cases hi : Gen.levelRejectsNo i = true
+      · cases other <;> simp [hi] <;> rfl
+      · have hi' : Gen.levelRejectsNo i = false := by simpa using hi
+        cases other <;> simp [hi'] <;> rfl
+
 theorem level_sim (orc : Oracle) {c : Core} {s : SState} (h : Sim c s) (name : Str) (no : NoArg) (other : Bool) :
     (levelOp c name no other).2 = (sPrim orc s (.level name no other)).2 ∧
     Sim (levelOp c name no other).1 (sPrim orc s (.level name no other)).1 := by
@@ -810,7 +870,7 @@ theorem level_sim (orc : Oracle) {c : Core} {s : SState} (h : Sim c s) (name : S
   simp only at h1 h2 h3 h4 h5 h6 h7 h8 h9 h10 h11
   subst h1 h2 h3
   unfold levelOp sPrim
-  simp only
+  simp only [levelDecisionC_eq]
   cases levelDecision lv name no other with
   | error e => exact ⟨rfl, ⟨rfl, rfl, rfl, h4, h5, h6, h7, h8, h9, h10, h11⟩⟩
   | ok d =>
@@ -883,6 +943,59 @@ theorem activate_sim {c : Core} {s : SState} (h : Sim c s) (name : Option Str) (
                   exact this
             lkName := h.lkName, lkInt := h.lkInt, pcInv := h.pcInv }
 
+/-! ### a log call overlapped by a complete enable/disable (`Op.logDuring`) -/
+
+/-- the dict that receives the cache fill was fetched before the rules were read (regenerated from `_log`) -/
+theorem fill_goes_into_fetched_dict : Gen.cacheFillIntoFetchedDict = true := rfl
+
+/-- with the code's order of reads the overlapped call is: the observable of the plain call in the old state,
+and the state of the completed change – the fill is lost with the unpublished dict -/
+theorem logDuringG_fetched (orc : Oracle) (c : Core) (lv : LevelArg) (M : Option Str) (lazy : Bool)
+    (p : Option Str) (st : Bool) :
+    logDuringG true orc c lv M lazy p st =
+      (activate (if c.handlers.isEmpty then c else match resolveLevel c lv with | .ok r => r.1 | .error _ => c) p st,
+       (log orc c lv M lazy).2) := by
+  unfold logDuringG log
+  by_cases he : c.handlers.isEmpty = true
+  · simp [he]
+  · simp only [he, Bool.false_eq_true, if_false]
+    cases hres : resolveLevel c lv with
+    | error e => rfl
+    | ok r =>
+      simp only [logTail]
+      by_cases hb : belowMin r.2.2 r.1.minLevel = true
+      · simp [hb]
+      · simp only [hb, Bool.false_eq_true, if_false]
+        cases hl : r.1.enabled.lookup M with
+        | some b => cases b <;> simp
+        | none =>
+          have hE : ∀ x : Core, emitAll orc (activate x p st) r.2.1 r.2.2 M = emitAll orc x r.2.1 r.2.2 M := by
+            intro x; cases p <;> rfl
+          simp only [if_true, hE]
+          cases scan r.1 M <;> simp [emitAll, precolorOk]
+
+theorem logDuring_sim (orc : Oracle) {c : Core} {s : SState} (h : Sim c s) (lv : LevelArg) (M : Option Str)
+    (lazy early : Bool) (p : Option Str) (st : Bool) :
+    (logDuring orc c lv M lazy early p st).2 = (sPrim orc s (.logDuring lv M lazy early p st)).2 ∧
+    Sim (logDuring orc c lv M lazy early p st).1 (sPrim orc s (.logDuring lv M lazy early p st)).1 := by
+  cases early with
+  | true =>
+    have ha := activate_sim h p st
+    have hl := log_sim orc ha lv M lazy
+    simp only [logDuring, sPrim, if_true]
+    exact hl
+  | false =>
+    simp only [logDuring, sPrim, Bool.false_eq_true, if_false, fill_goes_into_fetched_dict, logDuringG_fetched]
+    refine ⟨(log_sim orc h lv M lazy).1, ?_⟩
+    apply activate_sim
+    by_cases he : c.handlers.isEmpty = true
+    · simp only [he, if_true]; exact h
+    · simp only [he, Bool.false_eq_true, if_false]
+      have hr := resolveLevel_sim h lv
+      cases hres : resolveLevel c lv with
+      | error e => exact h
+      | ok r => rw [hres] at hr; exact hr.2.1
+
 /-! ### ids: fresh and increasing (I5) -/
 
 def IdInv (s : SState) : Prop := (∀ h ∈ s.regs, h.1 < s.nextId) ∧ s.regs.Pairwise (fun a b => a.1 < b.1)
@@ -924,6 +1037,7 @@ theorem idInv_sPrim (orc : Oracle) {s : SState} (h : IdInv s) (op : Op) : IdInv 
           simp only [List.mem_singleton] at hb
           subst hb
           exact h1 a ha
+  | addBad => exact ⟨fun x hx => Nat.lt_succ_of_lt (h1 x hx), h2⟩
   | remove id =>
     simp only [sPrim]
     split
@@ -945,6 +1059,7 @@ theorem idInv_sPrim (orc : Oracle) {s : SState} (h : IdInv s) (op : Op) : IdInv 
   | activateBad st => exact ⟨h1, h2⟩
   | configure a b d => exact ⟨h1, h2⟩
   | log lv M lazy => exact ⟨h1, h2⟩
+  | logDuring lv M lazy early p st => exact ⟨h1, h2⟩
 
 theorem idInv_batch (orc : Oracle) (ops : List Op) : ∀ {s : SState} (h : IdInv s) (acc : List Nat),
     IdInv (runBatch (sPrim orc) s ops acc).1 := by
@@ -967,6 +1082,7 @@ theorem idInv_sStep (orc : Oracle) {s : SState} (h : IdInv s) (op : Op) : IdInv 
   cases op with
   | configure a b d => exact idInv_batch orc _ h []
   | add a => exact idInv_sPrim orc h _
+  | addBad => exact idInv_sPrim orc h _
   | remove id => exact idInv_sPrim orc h _
   | removeAll => exact idInv_sPrim orc h _
   | removeBad => exact idInv_sPrim orc h _
@@ -975,6 +1091,7 @@ theorem idInv_sStep (orc : Oracle) {s : SState} (h : IdInv s) (op : Op) : IdInv 
   | activate name st => exact idInv_sPrim orc h _
   | activateBad st => exact idInv_sPrim orc h _
   | log lv M lazy => exact idInv_sPrim orc h _
+  | logDuring lv M lazy early p st => exact idInv_sPrim orc h _
 
 theorem idInv_final (orc : Oracle) (ops : List Op) : ∀ {s : SState}, IdInv s → IdInv (finalS orc s ops) := by
   induction ops with
@@ -985,6 +1102,7 @@ theorem prim_sim (orc : Oracle) {c : Core} {s : SState} (h : Sim c s) (hi : IdIn
     (prim orc c op).2 = (sPrim orc s op).2 ∧ Sim (prim orc c op).1 (sPrim orc s op).1 := by
   cases op with
   | add a => exact add_sim h a
+  | addBad => exact ⟨rfl, { h with count := by show c.handlersCount + 1 = s.nextId + 1; rw [h.count] }⟩
   | remove id => exact remove_sim orc h id
   | removeAll => exact removeAll_sim orc h hi.2
   | removeBad => exact ⟨rfl, h⟩
@@ -994,6 +1112,7 @@ theorem prim_sim (orc : Oracle) {c : Core} {s : SState} (h : Sim c s) (hi : IdIn
   | activateBad st => exact ⟨rfl, h⟩
   | configure a b d => exact ⟨rfl, h⟩
   | log lv M lazy => exact log_sim orc h lv M lazy
+  | logDuring lv M lazy early p st => exact logDuring_sim orc h lv M lazy early p st
 
 theorem batch_sim (orc : Oracle) (ops : List Op) : ∀ {c : Core} {s : SState} (h : Sim c s) (hi : IdInv s) (acc : List Nat),
     (runBatch (prim orc) c ops acc).2 = (runBatch (sPrim orc) s ops acc).2 ∧
@@ -1018,11 +1137,21 @@ theorem batch_sim (orc : Oracle) (ops : List Op) : ∀ {c : Core} {s : SState} (
     | ids l => exact ih hsim hi' _
     | delivered a b => exact ih hsim hi' _
 
+/-- the regenerated order of `configure`'s statements is the documented one -/
+theorem expand_eq (h : Option (List AddArgs)) (l : List (Str × NoArg × Bool)) (a : List (Option Str × Bool)) :
+    expand h l a = expandS h l a := by
+  cases h <;> simp [expand, expandS, Gen.configureOrder, stageOps, List.flatMap_cons, List.append_assoc]
+
 theorem step_sim (orc : Oracle) {c : Core} {s : SState} (h : Sim c s) (hi : IdInv s) (op : Op) :
     (step orc c op).2 = (sStep orc s op).2 ∧ Sim (step orc c op).1 (sStep orc s op).1 := by
   cases op with
-  | configure a b d => exact batch_sim orc _ h hi []
+  | configure a b d =>
+    show (runBatch (prim orc) c (expand a b d) []).2 = (runBatch (sPrim orc) s (expandS a b d) []).2 ∧
+      Sim (runBatch (prim orc) c (expand a b d) []).1 (runBatch (sPrim orc) s (expandS a b d) []).1
+    rw [expand_eq]
+    exact batch_sim orc _ h hi []
   | add a => exact prim_sim orc h hi _
+  | addBad => exact prim_sim orc h hi _
   | remove id => exact prim_sim orc h hi _
   | removeAll => exact prim_sim orc h hi _
   | removeBad => exact prim_sim orc h hi _
@@ -1031,6 +1160,7 @@ theorem step_sim (orc : Oracle) {c : Core} {s : SState} (h : Sim c s) (hi : IdIn
   | activate name st => exact prim_sim orc h hi _
   | activateBad st => exact prim_sim orc h hi _
   | log lv M lazy => exact prim_sim orc h hi _
+  | logDuring lv M lazy early p st => exact prim_sim orc h hi _
 
 theorem run_sim (orc : Oracle) (ops : List Op) : ∀ {c : Core} {s : SState}, Sim c s → IdInv s →
     run orc c ops = runSpec orc s ops := by
@@ -1047,6 +1177,62 @@ theorem final_sim (orc : Oracle) (ops : List Op) : ∀ {c : Core} {s : SState}, 
   induction ops with
   | nil => intro c s h _; exact h
   | cons op rest ih => intro c s h hi; exact ih (step_sim orc h hi op).2 (idInv_sStep orc hi op)
+
+/-! ### `configure` = a prefix of its call sequence -/
+
+/-- a plain API call (everything except `configure` itself) -/
+def Op.isCall : Op → Bool
+  | .configure _ _ _ => false
+  | _ => true
+
+theorem step_eq_prim (orc : Oracle) (c : Core) {op : Op} (h : op.isCall = true) : step orc c op = prim orc c op := by
+  cases op <;> first | rfl | (simp [Op.isCall] at h)
+
+theorem expandS_isCall (h : Option (List AddArgs)) (l : List (Str × NoArg × Bool)) (a : List (Option Str × Bool)) :
+    ∀ op ∈ expandS h l a, op.isCall = true := by
+  intro op hop
+  simp only [expandS, List.mem_append, List.mem_map] at hop
+  rcases hop with ((hop | ⟨x, _, rfl⟩) | ⟨x, _, rfl⟩) | hop
+  · cases h with
+    | none => simp at hop
+    | some hs => simp at hop; subst hop; rfl
+  · rfl
+  · rfl
+  · cases h with
+    | none => simp at hop
+    | some hs => simp only [List.mem_map] at hop; obtain ⟨x, _, rfl⟩ := hop; rfl
+
+theorem runBatch_final (orc : Oracle) : ∀ (ops : List Op) (c : Core) (acc : List Nat),
+    (∀ op ∈ ops, op.isCall = true) →
+    ∃ k, k ≤ ops.length ∧ (runBatch (prim orc) c ops acc).1 = final orc c (ops.take k) ∧
+      ((∀ e, (runBatch (prim orc) c ops acc).2 ≠ .err e) → k = ops.length) := by
+  intro ops
+  induction ops with
+  | nil => intro c acc _; exact ⟨0, Nat.le_refl _, rfl, fun _ => rfl⟩
+  | cons op rest ih =>
+    intro c acc hall
+    have hop : step orc c op = prim orc c op := step_eq_prim orc c (hall op List.mem_cons_self)
+    have hrest : ∀ o ∈ rest, o.isCall = true := fun o ho => hall o (List.mem_cons_of_mem _ ho)
+    unfold runBatch
+    rcases hm : prim orc c op with ⟨c', o⟩
+    have hfin : ∀ k, final orc c ((op :: rest).take (k + 1)) = final orc c' (rest.take k) := by
+      intro k; simp only [List.take_succ_cons, final, hop, hm]
+    cases o with
+    | err e =>
+      refine ⟨1, by simp, ?_, fun hne => absurd rfl (hne e)⟩
+      rw [hfin 0]; rfl
+    | id n =>
+      obtain ⟨k, hk, h1, h2⟩ := ih c' (acc ++ [n]) hrest
+      exact ⟨k + 1, by simp; omega, by rw [hfin k]; exact h1, fun hne => by simp only [List.length_cons]; rw [h2 hne]⟩
+    | ok =>
+      obtain ⟨k, hk, h1, h2⟩ := ih c' acc hrest
+      exact ⟨k + 1, by simp; omega, by rw [hfin k]; exact h1, fun hne => by simp only [List.length_cons]; rw [h2 hne]⟩
+    | ids l =>
+      obtain ⟨k, hk, h1, h2⟩ := ih c' acc hrest
+      exact ⟨k + 1, by simp; omega, by rw [hfin k]; exact h1, fun hne => by simp only [List.length_cons]; rw [h2 hne]⟩
+    | delivered x y =>
+      obtain ⟨k, hk, h1, h2⟩ := ih c' acc hrest
+      exact ⟨k + 1, by simp; omega, by rw [hfin k]; exact h1, fun hne => by simp only [List.length_cons]; rw [h2 hne]⟩
 
 /-! ### `filter_by_level`: the `rfind` loop visits the parents of the module from the closest up -/
 
@@ -1206,5 +1392,325 @@ theorem byLevelLoop_closest (tbl : List (Option Str × Option Int)) (no : Int) (
                   · exact ⟨t, by simp⟩
                 have := dot_prefix_le_trunc hpre
                 omega
+
+end Dispatch
+
+namespace Dispatch
+open Py
+
+/-! ### the declarative reading of a registered filter (`acceptsD`) -/
+
+theorem lookup_cons_some_ne {k k0 : Str} {v0 : Option Int} {rest : List (Option Str × Option Int)} (h : k ≠ k0) :
+    List.lookup (some k) ((some k0, v0) :: rest) = List.lookup (some k) rest := by
+  rw [List.lookup_cons]
+  have : (some k == some k0) = false := by simp [h]
+  rw [this]
+
+theorem lookup_cons_some_self {k0 : Str} {v0 : Option Int} {rest : List (Option Str × Option Int)} :
+    List.lookup (some k0) ((some k0, v0) :: rest) = some v0 := by
+  rw [List.lookup_cons]; simp
+
+theorem lookup_cons_none_key {k : Str} {v0 : Option Int} {rest : List (Option Str × Option Int)} :
+    List.lookup (some k) ((none, v0) :: rest) = List.lookup (some k) rest := by
+  rw [List.lookup_cons]
+  have : (some k == (none : Option Str)) = false := by simp
+  rw [this]
+
+theorem closest_spec : ∀ (tbl : List (Option Str × Option Int)) (M : Str),
+    (∀ k v, closest tbl M = some (k, v) → ClosestEntry tbl M k v) ∧
+    (closest tbl M = none → ∀ k, pkgParent k M = true → tbl.lookup (some k) = none) := by
+  intro tbl M
+  induction tbl with
+  | nil => exact ⟨fun k v h => by simp [closest] at h, fun _ k _ => rfl⟩
+  | cons e rest ih =>
+    rcases e with ⟨key, v0⟩
+    cases key with
+    | none =>
+      simp only [closest]
+      refine ⟨fun k v h => ?_, fun h k hk => ?_⟩
+      · obtain ⟨h1, h2, h3⟩ := ih.1 k v h
+        exact ⟨by rw [lookup_cons_none_key]; exact h1, h2, fun k' hk' hs => h3 k' hk' (by rw [lookup_cons_none_key] at hs; exact hs)⟩
+      · rw [lookup_cons_none_key]; exact ih.2 h k hk
+    | some k0 =>
+      simp only [closest]
+      by_cases hp : pkgParent k0 M = true
+      · simp only [hp, if_true]
+        cases hc : closest rest M with
+        | none =>
+          simp only
+          refine ⟨fun k v h => ?_, fun h => by cases h⟩
+          simp only [Option.some.injEq, Prod.mk.injEq] at h
+          obtain ⟨rfl, rfl⟩ := h
+          refine ⟨lookup_cons_some_self, hp, fun k' hk' hs => ?_⟩
+          by_cases hk : k' = k0
+          · subst hk; exact Nat.le_refl _
+          · rw [lookup_cons_some_ne hk, ih.2 hc k' hk'] at hs; cases hs
+        | some b =>
+          rcases b with ⟨kb, vb⟩
+          obtain ⟨hb1, hb2, hb3⟩ := ih.1 kb vb hc
+          simp only
+          by_cases hlt : k0.length < kb.length
+          · simp only [hlt, if_true]
+            refine ⟨fun k v h => ?_, fun h => by cases h⟩
+            simp only [Option.some.injEq, Prod.mk.injEq] at h
+            obtain ⟨rfl, rfl⟩ := h
+            have hne : kb ≠ k0 := fun hh => by subst hh; omega
+            refine ⟨by rw [lookup_cons_some_ne hne]; exact hb1, hb2, fun k' hk' hs => ?_⟩
+            by_cases hk : k' = k0
+            · subst hk; omega
+            · rw [lookup_cons_some_ne hk] at hs; exact hb3 k' hk' hs
+          · simp only [hlt, if_false]
+            refine ⟨fun k v h => ?_, fun h => by cases h⟩
+            simp only [Option.some.injEq, Prod.mk.injEq] at h
+            obtain ⟨rfl, rfl⟩ := h
+            refine ⟨lookup_cons_some_self, hp, fun k' hk' hs => ?_⟩
+            by_cases hk : k' = k0
+            · subst hk; exact Nat.le_refl _
+            · rw [lookup_cons_some_ne hk] at hs
+              have := hb3 k' hk' hs
+              omega
+      · simp only [hp, Bool.false_eq_true, if_false]
+        refine ⟨fun k v h => ?_, fun h k hk => ?_⟩
+        · obtain ⟨h1, h2, h3⟩ := ih.1 k v h
+          have hne : k ≠ k0 := fun hh => by subst hh; exact hp h2
+          refine ⟨by rw [lookup_cons_some_ne hne]; exact h1, h2, fun k' hk' hs => ?_⟩
+          have hk : k' ≠ k0 := fun hh => by subst hh; exact hp hk'
+          rw [lookup_cons_some_ne hk] at hs
+          exact h3 k' hk' hs
+        · have hne : k ≠ k0 := fun hh => by subst hh; exact hp hk
+          rw [lookup_cons_some_ne hne]; exact ih.2 h k hk
+
+/-- for the filters `add` registers, the code's evaluation (slice kernel; `rfind` loop with its fuel) IS the
+declarative reading -/
+theorem accepts_eq_acceptsD (orc : Oracle) (f : Filter) (hf : WFFilter f) (no : Int) (M : Option Str) :
+    accepts orc f no M = acceptsD orc f no M := by
+  cases f with
+  | none => rfl
+  | notNone => rfl
+  | callable k => rfl
+  | byName parent length =>
+    obtain ⟨p, hp, rfl, rfl⟩ := hf
+    cases M with
+    | none => rfl
+    | some n =>
+      simp only [accepts, acceptsD, filterByName_eq, List.dropLast_concat]
+      rw [Bool.eq_iff_iff, pkgParent_iff_dotted, List.isPrefixOf_iff_prefix]
+      simp only [dotted, hp, if_false]
+  | byLevel tbl =>
+    cases M with
+    | none =>
+      simp only [accepts, acceptsD, filterByLevel, byLevelLoop]
+      cases tbl.lookup none with
+      | none => rfl
+      | some v => cases v with
+        | none => rfl
+        | some lv => simp only [entryDecides, levelAdmits_eq]
+    | some n =>
+      have h := byLevelLoop_closest tbl no n (n.length + 1) n (Nat.lt_succ_self _) (pkgParent_refl n)
+        (fun k' hk' hlen => absurd (pkgParent_prefix hk').length_le (by omega))
+      have hc := closest_spec tbl n
+      simp only [accepts, acceptsD, filterByLevel]
+      cases hcl : closest tbl n with
+      | none => simp only; exact h.2 (hc.2 hcl)
+      | some b => rcases b with ⟨k, v⟩; simp only; exact h.1 k v (hc.1 k v hcl)
+
+theorem mkFilter_wf {levels : List (Str × Int)} {a : FilterArg} {f : Filter} (h : mkFilter levels a = .ok f) :
+    WFFilter f := by
+  cases a with
+  | none => simp only [mkFilter, Except.ok.injEq] at h; subst h; trivial
+  | str s =>
+    simp only [mkFilter] at h
+    by_cases hs : s = []
+    · simp only [hs, if_true, Except.ok.injEq] at h; subst h; trivial
+    · simp only [hs, if_false, Except.ok.injEq] at h; subst h; exact ⟨s, hs, rfl, rfl⟩
+  | dict items =>
+    simp only [mkFilter] at h
+    cases hd : mkDict levels items with
+    | error e => rw [hd] at h; cases h
+    | ok t => rw [hd] at h; simp only [Except.map, Except.ok.injEq] at h; subst h; trivial
+  | callable k => simp only [mkFilter, Except.ok.injEq] at h; subst h; trivial
+  | builtinFilter => cases h
+  | bad => cases h
+
+/-- every registered handler holds a filter of the shape `add` builds -/
+def FInv (s : SState) : Prop := ∀ h ∈ s.regs, WFFilter h.2.filter
+
+theorem fInv_init : FInv SState.init := fun h hh => by simp [SState.init] at hh
+
+theorem fInv_sPrim (orc : Oracle) {s : SState} (h : FInv s) (op : Op) : FInv (sPrim orc s op).1 := by
+  cases op with
+  | add a =>
+    simp only [sPrim, sAdd]
+    cases hf : mkFilter s.levels a.filter with
+    | error e => exact h
+    | ok f =>
+      cases mkThreshold s.levels a.level with
+      | error e => exact h
+      | ok t =>
+        intro x hx
+        simp only [List.mem_append, List.mem_singleton] at hx
+        rcases hx with hx | rfl
+        · exact h x hx
+        · exact mkFilter_wf hf
+  | addBad => exact h
+  | remove id =>
+    simp only [sPrim]
+    split
+    · cases s.regs.find? (fun h => h.1 == id.toNat) with
+      | some hd => exact fun x hx => h x (List.mem_filter.mp hx).1
+      | none => exact h
+    · exact h
+  | removeAll => exact fun x hx => h x ((removeAllS_sublist s.regs).subset hx)
+  | removeBad => exact h
+  | level name no other =>
+    simp only [sPrim]
+    cases levelDecision s.levels name no other with
+    | error e => exact h
+    | ok d => cases d <;> exact h
+  | levelBad => exact h
+  | activate name st => exact h
+  | activateBad st => exact h
+  | configure a b d => exact h
+  | log lv M lazy => exact h
+  | logDuring lv M lazy early p st => exact h
+
+theorem fInv_batch (orc : Oracle) (ops : List Op) : ∀ {s : SState} (h : FInv s) (acc : List Nat),
+    FInv (runBatch (sPrim orc) s ops acc).1 := by
+  induction ops with
+  | nil => intro s h acc; exact h
+  | cons op rest ih =>
+    intro s h acc
+    have hp := fInv_sPrim orc h op
+    unfold runBatch
+    rcases hs : sPrim orc s op with ⟨s', o'⟩
+    rw [hs] at hp
+    cases o' with
+    | err e => exact hp
+    | id n => exact ih hp _
+    | ok => exact ih hp _
+    | ids l => exact ih hp _
+    | delivered a b => exact ih hp _
+
+theorem fInv_sStep (orc : Oracle) {s : SState} (h : FInv s) (op : Op) : FInv (sStep orc s op).1 := by
+  cases op with
+  | configure a b d => exact fInv_batch orc _ h []
+  | add a => exact fInv_sPrim orc h _
+  | addBad => exact fInv_sPrim orc h _
+  | remove id => exact fInv_sPrim orc h _
+  | removeAll => exact fInv_sPrim orc h _
+  | removeBad => exact fInv_sPrim orc h _
+  | level name no other => exact fInv_sPrim orc h _
+  | levelBad => exact fInv_sPrim orc h _
+  | activate name st => exact fInv_sPrim orc h _
+  | activateBad st => exact fInv_sPrim orc h _
+  | log lv M lazy => exact fInv_sPrim orc h _
+  | logDuring lv M lazy early p st => exact fInv_sPrim orc h _
+
+theorem fInv_final (orc : Oracle) (ops : List Op) : ∀ {s : SState}, FInv s → FInv (finalS orc s ops) := by
+  induction ops with
+  | nil => intro s h; exact h
+  | cons op rest ih => intro s h; exact ih (fInv_sStep orc h op)
+
+theorem deliverS_eq_deliverD (orc : Oracle) {s : SState} (h : FInv s) (no : Int) (M : Option Str) :
+    deliverS orc s no M = deliverD orc s no M := by
+  unfold deliverS deliverD
+  congr 1
+  apply List.filter_congr
+  intro x hx
+  rw [accepts_eq_acceptsD orc x.2.filter (h x hx)]
+
+/-! ### level numbers are immutable -/
+
+theorem levelDecision_keeps {levels : List (Str × Int)} {name : Str} {no : NoArg} {other : Bool} {m v : Int}
+    (h : levelDecision levels name no other = .ok (some m)) (hv : levels.lookup name = some v) : m = v := by
+  unfold levelDecision at h
+  rw [hv] at h
+  split at h
+  · cases h
+  · cases no <;> simp at h
+    exact h.symm
+
+theorem lv_sPrim (orc : Oracle) {s : SState} {n : Str} {v : Int} (h : s.levels.lookup n = some v) (op : Op) :
+    (sPrim orc s op).1.levels.lookup n = some v := by
+  cases op with
+  | add a =>
+    simp only [sPrim, sAdd]
+    cases mkFilter s.levels a.filter with
+    | error e => exact h
+    | ok f => cases mkThreshold s.levels a.level <;> exact h
+  | addBad => exact h
+  | remove id =>
+    simp only [sPrim]
+    split
+    · cases s.regs.find? (fun h => h.1 == id.toNat) <;> exact h
+    · exact h
+  | removeAll => exact h
+  | removeBad => exact h
+  | level name no other =>
+    simp only [sPrim]
+    cases hd : levelDecision s.levels name no other with
+    | error e => exact h
+    | ok d =>
+      cases d with
+      | none => exact h
+      | some m =>
+        simp only [List.lookup_cons]
+        by_cases hn : n = name
+        · subst hn
+          simp only [beq_self_eq_true]
+          rw [levelDecision_keeps hd h]
+        · have : (n == name) = false := by simp [hn]
+          rw [this]; exact h
+  | levelBad => exact h
+  | activate name st => exact h
+  | activateBad st => exact h
+  | configure a b d => exact h
+  | log lv M lazy => exact h
+  | logDuring lv M lazy early p st => exact h
+
+theorem lv_batch (orc : Oracle) {n : Str} {v : Int} (ops : List Op) : ∀ {s : SState} (h : s.levels.lookup n = some v)
+    (acc : List Nat), (runBatch (sPrim orc) s ops acc).1.levels.lookup n = some v := by
+  induction ops with
+  | nil => intro s h acc; exact h
+  | cons op rest ih =>
+    intro s h acc
+    have hp := lv_sPrim orc h op
+    unfold runBatch
+    rcases hs : sPrim orc s op with ⟨s', o'⟩
+    rw [hs] at hp
+    cases o' with
+    | err e => exact hp
+    | id k => exact ih hp _
+    | ok => exact ih hp _
+    | ids l => exact ih hp _
+    | delivered a b => exact ih hp _
+
+theorem lv_sStep (orc : Oracle) {s : SState} {n : Str} {v : Int} (h : s.levels.lookup n = some v) (op : Op) :
+    (sStep orc s op).1.levels.lookup n = some v := by
+  cases op with
+  | configure a b d => exact lv_batch orc _ h []
+  | add a => exact lv_sPrim orc h _
+  | addBad => exact lv_sPrim orc h _
+  | remove id => exact lv_sPrim orc h _
+  | removeAll => exact lv_sPrim orc h _
+  | removeBad => exact lv_sPrim orc h _
+  | level name no other => exact lv_sPrim orc h _
+  | levelBad => exact lv_sPrim orc h _
+  | activate name st => exact lv_sPrim orc h _
+  | activateBad st => exact lv_sPrim orc h _
+  | log lv M lazy => exact lv_sPrim orc h _
+  | logDuring lv M lazy early p st => exact lv_sPrim orc h _
+
+theorem lv_final (orc : Oracle) {n : Str} {v : Int} (ops : List Op) : ∀ {s : SState}, s.levels.lookup n = some v →
+    (finalS orc s ops).levels.lookup n = some v := by
+  induction ops with
+  | nil => intro s h; exact h
+  | cons op rest ih => intro s h; exact ih (lv_sStep orc h op)
+
+theorem finalS_append (orc : Oracle) (ops ops' : List Op) : ∀ s : SState,
+    finalS orc s (ops ++ ops') = finalS orc (finalS orc s ops) ops' := by
+  induction ops with
+  | nil => intro s; rfl
+  | cons op rest ih => intro s; exact ih _
 
 end Dispatch
